@@ -170,9 +170,7 @@ var (
 
 	scanMu    sync.Mutex
 	scanPairs = map[stepKey]int64{}
-	scanLast  [nKinds]struct {
-		index, size int
-	}
+	scanMax   [nKinds]atomic.Int64 // 1 + highest byte index consumed since ResetScanMax
 )
 
 // SetScanProbes switches the scanner probes on or off.
@@ -226,9 +224,21 @@ func ScanStep(kind int, pc uintptr, c byte, index, size int) {
 	k := stepKey{kind, pc, ByteClass(c)}
 	scanMu.Lock()
 	scanPairs[k]++
-	scanLast[kind].index, scanLast[kind].size = index, size
 	scanMu.Unlock()
+	for {
+		old := scanMax[kind].Load()
+		if int64(index+1) <= old || scanMax[kind].CompareAndSwap(old, int64(index+1)) {
+			break
+		}
+	}
 }
+
+// ScanConsumed returns how many leading bytes the scanners of this kind have
+// consumed at most since the last ResetScanConsumed.
+func ScanConsumed(kind int) int { return int(scanMax[kind].Load()) }
+
+// ResetScanConsumed forgets the high-water mark of a scanner kind.
+func ResetScanConsumed(kind int) { scanMax[kind].Store(0) }
 
 // ScanPairs returns, per scanner kind, the (step function name, byte class)
 // pairs crossed so far with their counts.
